@@ -154,6 +154,11 @@ def get_attr(eng, o, attr, node):
 
 
 def _as_int(v):
+    from .reclist import OptV
+
+    if isinstance(v, OptV):
+        eng = V.ENGINE
+        return eng.unopt(v) if eng is not None else v.val
     if isinstance(v, bool):
         return int(v)
     if isinstance(v, SBool):
@@ -398,10 +403,14 @@ def _eq(eng, a, b):
 
 
 def _identity(eng, a, b):
+    from .reclist import OptV
+
     if a is None or b is None:
         other = b if a is None else a
         if other is None:
             return True
+        if isinstance(other, OptV):
+            return other.none
         if isinstance(other, SOpq):
             return V.eq(other, None)
         return False
@@ -465,6 +474,21 @@ def _contains(eng, container, x, node):
 
 
 def get_item(eng, o, idx, node):
+    from . import reclist as RL
+
+    if isinstance(o, RL.RecElem):
+        if is_sym(idx):
+            raise EngineError("symbolic key in record access")
+        return RL.elem_get(eng, o, idx, node)
+    if isinstance(o, Ref) and eng.kind(o) == "reclist":
+        n = eng.heap[o.id]["n"]
+        idx = _as_int(idx)
+        eng.safety(V.And(idx >= -n, idx < n), "IndexError", "index-in-range", node)
+        if is_sym(idx):
+            i2 = idx if V.known(idx >= 0) else V.ite(idx < 0, idx + n, idx)
+        else:
+            i2 = idx if idx >= 0 else n + idx
+        return RL.RecElem(o, i2)
     if isinstance(o, Ref):
         k = eng.kind(o)
         if k == "dict":
@@ -557,6 +581,13 @@ def get_slice(eng, o, lo, hi, step, node):
 
 
 def set_item(eng, o, idx, v, node):
+    from . import reclist as RL
+
+    if isinstance(o, RL.RecElem):
+        if is_sym(idx):
+            raise EngineError("symbolic key in record store")
+        RL.elem_set(eng, o, idx, v)
+        return
     if isinstance(o, Ref):
         k = eng.kind(o)
         if k == "dict":
@@ -638,6 +669,27 @@ def set_slice(eng, o, lo, hi, v, node):
 
 
 def call_method(eng, o, name, args, kwargs, node):
+    from . import reclist as RL
+
+    if isinstance(o, RL.RecElem):
+        if name == "keys":
+            return RecKeys(o)
+        if name == "get":
+            cell = eng.heap[o.ref.id]
+            key = args[0]
+            default = args[1] if len(args) > 1 else None
+            if key not in cell["cols"]:
+                return default
+            if eng.branch(RL.col_has(cell, key, o.idx)):
+                return RL.elem_get(eng, o, key, node)
+            return default
+        if name == "update":
+            src = args[0]
+            sd = eng.get_field(src, "items") if isinstance(src, Ref) else src
+            for k, v in sd.items():
+                RL.elem_set(eng, o, k, v)
+            return None
+        raise EngineError("record method %s" % name)
     if isinstance(o, Ref):
         k = eng.kind(o)
         if k == "stream":
@@ -756,6 +808,7 @@ def ostream_method(eng, o, name, args, kwargs, node):
             raise RaiseExc("TypeError", (), node, implicit=True)
         out = eng.get_field(o, "out")
         eng.set_field(o, "out", _mk_bytes(V.concat(out, b)))
+        eng.segments.setdefault(o.id, []).append(("write", b))
         eng.event("write", "write", o, (b,), {}, node)
         return V.L(b)
     if name == "tell":
@@ -775,11 +828,13 @@ def ostream_method(eng, o, name, args, kwargs, node):
 def list_method(eng, o, name, args, kwargs, node):
     items = eng.get_field(o, "items")
     if name == "append":
-        x = args[0]
+        x = eng.unopt(args[0], node)
         if isinstance(items, tuple):
             eng.set_field(o, "items", items + (x,))
         else:
-            if isinstance(x, (Ref, tuple)) or x is None or isinstance(x, (bytes, str)):
+            if items.elem == "str" and (isinstance(x, str) or (isinstance(x, SSeq) and x.py == "str")):
+                pass
+            elif isinstance(x, (Ref, tuple)) or x is None or isinstance(x, (bytes, str)):
                 raise EngineError("append of non-scalar to symbolic list")
             unit = V.to_seq([x], elem=items.elem, py="list")
             eng.set_field(o, "items", SSeq(z3.Concat(items.t, unit.t), items.elem, "list"))
@@ -904,6 +959,11 @@ def dict_method(eng, o, name, args, kwargs, node):
 class KeysView:
     def __init__(self, ref):
         self.ref = ref
+
+
+class RecKeys:
+    def __init__(self, elem):
+        self.elem = elem
 
 
 def bytearray_method(eng, o, name, args, kwargs, node):
@@ -1044,7 +1104,13 @@ def str_method(eng, o, name, args, kwargs, node):
 # external functions
 
 
+_NONE_OK = {"isinstance", "str", "repr", "print", "bool", "hasattr", "getattr", "list", "tuple", "set", "dict", "map", "zip", "enumerate", "functools.reduce", "reduce"}
+
+
 def call_ext(eng, dotted, args, kwargs, node):
+    short0 = dotted[len("builtins."):] if dotted.startswith("builtins.") else dotted
+    if short0 not in _NONE_OK:
+        args = [eng.unopt(a, node) for a in args]
     h = EXT.get(dotted)
     if h is None and dotted.startswith("builtins."):
         h = EXT.get(dotted[len("builtins."):])
@@ -1081,6 +1147,8 @@ def ext(*names):
 @ext("len")
 def _len(eng, args, kwargs, node):
     x = args[0]
+    if isinstance(x, Ref) and eng.kind(x) == "reclist":
+        return eng.heap[x.id]["n"]
     if isinstance(x, Ref):
         k = eng.kind(x)
         if k == "dict":
@@ -1649,6 +1717,8 @@ def all_true(eng, c):
         w = SInt(V.uf("all_true_witness", V.seq_sort("bool"), z3.IntSort())(c.t))
         eng.pc.append(z3.Implies(z3.Not(r.t), z3.And(w.t >= 0, w.t < V._zi(n))))
         eng.pc.append(z3.Implies(z3.Not(r.t), z3.Not(c.t[w.t])))
+        if hasattr(eng, "add_index_term"):
+            eng.add_index_term(w)
     return r
 
 
@@ -1664,6 +1734,8 @@ def any_true(eng, c):
         w = SInt(V.uf("any_true_witness", V.seq_sort("bool"), z3.IntSort())(c.t))
         eng.pc.append(z3.Implies(r.t, z3.And(w.t >= 0, w.t < V._zi(n))))
         eng.pc.append(z3.Implies(r.t, c.t[w.t]))
+        if hasattr(eng, "add_index_term"):
+            eng.add_index_term(w)
     return r
 
 
@@ -1743,6 +1815,12 @@ _orig_get_attr = get_attr
 
 
 def get_attr(eng, o, attr, node):  # noqa: F811
+    from .reclist import RecElem, OptV
+
+    if isinstance(o, OptV):
+        o = eng.unopt(o, node)
+    if isinstance(o, RecElem):
+        return BuiltinMethod(o, attr)
     if isinstance(o, SuperV):
         for b in o.cls.bases:
             bc = o.cls.module.lookup_class(b)
@@ -1767,6 +1845,14 @@ _orig_contains = _contains
 
 
 def _contains(eng, container, x, node):  # noqa: F811
+    from . import reclist as RL
+
+    if isinstance(container, RecKeys):
+        container = container.elem
+    if isinstance(container, RL.RecElem):
+        if is_sym(x):
+            raise EngineError("symbolic key lookup in record")
+        return RL.col_has(eng.heap[container.ref.id], x, container.idx)
     if isinstance(container, KeysView):
         return _orig_contains(eng, container.ref, x, node)
     return _orig_contains(eng, container, x, node)
